@@ -93,7 +93,7 @@ def run(ctx):
             uniq = edge + (rnd.sample(rest, 1800) if len(rest) > 1800 else rest)
         ctx.extra["programs"] = len(uniq)
         items = modules(uniq, rnd) + PROBES
-    results = ctx.replay("wexec-diff", items, timeout=3400)
+    results = ctx.replay("wexec-diff", items, timeout=3400 if ctx.quick else 9000)
     for it, r in zip(items, results):
         for f in r.get("fails", []):
             ctx.fail(f["key"], f["msg"], replay=it)
